@@ -290,7 +290,7 @@ package blockstore
 //@   let rw, rerr := call[OpenReadWriteFile#0]
 //@   call[os.OpenFile#0] assert keeps_existing_content [C06,C12]: arg0 == path && arg1 == 66
 //@   call[OpenReadWriteFile#0] assert same_roots_and_options [C12]: ref(arg0) == ref(f) && arg1 == roots && arg2 == opts
-//@   ensures store_over_that_file [C12]: err == nil ==> result0 == rw && rerr == nil
+//@   ensures store_over_that_file [C06,C12]: err == nil ==> result0 == rw && rerr == nil
 
 //@ func OpenReadOnly
 //@   let f, ferr := call[mmap.Open#0]
